@@ -82,7 +82,7 @@ def sensitivity(src, seed, mini_search, shards=16, runs=150, only=None):
                 rec["skipped"] = why_not
                 out["mutants"].append(rec)
                 continue
-            res = mini_search(copy, seed + 7919, shards, runs)
+            res = mini_search(copy, seed + 7919, shards, m.get("runs", runs))
             rec.update({"runs": res["runs"], "probes": res["probes"], "diverging_runs": res["diverging_runs"],
                         "classes": res["diverge"], "fatal": res["fatal"][:2]})
             if res["fatal"]:
@@ -98,5 +98,5 @@ def sensitivity(src, seed, mini_search, shards=16, runs=150, only=None):
         finally:
             shutil.rmtree(tmp, ignore_errors=True)
     out["summary"] = {"killed": killed, "expected_kills": expected, "silent_ok": silent_ok, "silent_total": silent_total,
-                      "budget_runs_per_mutant": shards * runs}
+                      "budget_runs_per_mutant": shards * runs, "note": "a mutant may carry its own larger budget ('runs' per shard)"}
     return out
